@@ -1411,23 +1411,44 @@ def rule_N0(ctx):
     adds = ex.calls("._add_node")
     ok = len(adds) >= 1 and all(show(e.args[0]) == "P0._graph.num_nodes() - 1" for e in adds)
     ctx.check(ok, "N0", "create_root_node names the new clone after the number of clones (graph nodes minus the virtual root)", cr.where(), "the new clone is named %s" % ([show(e.args[0]) for e in adds] or "nothing"), construct=cr.qualname, stmt="new label")
+    def _trace(stmts, mod, cond, depth):
+        """Ordered (name, conditional) of the sample_tree / relabel_nodes calls a statement list performs, helpers of
+        the same module expanded in place (depth <= 2)."""
+        out = []
+        for st_ in stmts:
+            if isinstance(st_, ast.If):
+                out += _trace(st_.body, mod, True, depth) + _trace(st_.orelse, mod, True, depth)
+                continue
+            if isinstance(st_, (ast.For, ast.While)):
+                out += _trace(st_.body, mod, cond, depth)
+                continue
+            if isinstance(st_, ast.With):
+                out += _trace(st_.body, mod, cond, depth)
+                continue
+            if isinstance(st_, (ast.FunctionDef, ast.ClassDef)):
+                continue
+            for c in sorted([x for x in ast.walk(st_) if isinstance(x, ast.Call)], key=lambda x: (x.lineno, x.col_offset)):
+                ln = last_name(c)
+                if ln in ("sample_tree", "relabel_nodes"):
+                    out.append((ln, cond))
+                elif isinstance(c.func, ast.Name) and depth < 2:
+                    helper = prog.resolve_function(c.func.id, mod)
+                    if helper is not None and helper.module is mod:
+                        out += _trace(helper.node.body, mod, cond, depth + 1)
+        return out
+
     for fname in ("run._run_main_sampler", "run._run_burnin"):
         f = prog.fn(fname)
         loops = [n for n in ast.walk(f.node) if isinstance(n, ast.For)]
-        outer = [l for l in loops if any(isinstance(x, ast.Call) and last_name(x) == "sample_tree" for x in ast.walk(l))]
+        outer = [l for l in loops if _trace(l.body, f.module, False, 0) and any(n == "sample_tree" for n, _ in _trace(l.body, f.module, False, 0))]
         ok = False
         if outer:
-            body_calls = [c for c in calls(outer[0]) if last_name(c) in ("sample_tree", "relabel_nodes")]
-            names = [last_name(c) for c in body_calls]
-            ok = "relabel_nodes" in names and names.index("relabel_nodes") > max(i for i, n in enumerate(names) if n == "sample_tree")
+            tr = _trace(outer[0].body, f.module, False, 0)
+            names = [n for n, _ in tr]
+            ok = "relabel_nodes" in names and max(i for i, n in enumerate(names) if n == "relabel_nodes") > max(i for i, n in enumerate(names) if n == "sample_tree")
             if ok:
-                from ..astutil import parents as _parents
-                from ..paths import guards_of as _guards_of
-
-                rc = [c for c in body_calls if last_name(c) == "relabel_nodes"][0]
-                pm = _parents(outer[0])
-                inner = [g for g in _guards_of(rc, pm)]  # tests between the loop header and the call
-                ok = not inner
+                last = max(i for i, n in enumerate(names) if n == "relabel_nodes")
+                ok = not tr[last][1]  # not under a test (inside the loop body or inside the helper)
         ctx.check(ok, "N0", "%s relabels the tree once per sweep, after the moves, unconditionally" % f.name, f.where(), "the sweep does not end with tree.relabel_nodes(): labels drift away from 0..K-1 and the next SMC pass can give a new clone a label that is in use", construct=f.qualname, stmt="tree.relabel_nodes()")
         ctx.analysed(f)
 
